@@ -237,6 +237,13 @@ def frame_obligations(eng, ex, c, st, entry_heap, mod_oids):
 
 
 def check_normal(eng, ex, c, st, old, entry_frame, entry_heap, result, mod_oids, fi):
+    # lemma instances named by the contract for return points (locals and `result` are visible; a hint whose
+    # names do not exist on this path is skipped); each lemma is proved in the same run
+    for h in getattr(c, "return_hints", []) or []:
+        try:
+            st.assume(callcontract.clause(ex, st, c, h, {"result": result}))
+        except Unsupported:
+            pass
     fv = post_frame(st, entry_frame, c)
     fv["result"] = result
     if fi.is_generator():
